@@ -129,7 +129,9 @@ class BondAnnuity:
         prev_dt = self.pcd
 
         for next_dt in self.cpn_dts[1:]:
-            alpha = basis.year_frac(prev_dt, next_dt)[0]
+            alpha = basis.year_frac(
+                prev_dt, next_dt, next_dt, self.freq_type
+            )[0]
             flow = self.cpn * alpha * face
             self.flow_amounts.append(flow)
             prev_dt = next_dt
